@@ -133,17 +133,34 @@ class SmartList(list):
             raise ValueError("List only supports elements of type '%s'" %
                              self._content_type)
 
+        # Run all checks before anything is changed: the index has to exist, the new
+        # object must not share its name with any of the remaining objects and must
+        # not be a parent of the object owning this list.
+        replaced = self[key]
+        if replaced is value:
+            return
+
+        for obj in self:
+            if obj is not replaced and obj is not value and \
+                    hasattr(obj, "name") and obj.name == value.name:
+                raise KeyError("Object with the same name already exists! " + str(value))
+
+        owner = getattr(replaced, "_parent", None)
+        if hasattr(owner, "_check_no_cycle"):
+            owner._check_no_cycle(value)
+
         # If required remove new object from its old parents child-list
         if hasattr(value, "_parent") and (value._parent and value in value._parent):
             value._parent.remove(value)
 
         # If required move parent reference from replaced to new object
         # and set parent reference on replaced object None.
-        if hasattr(self[key], "_parent"):
-            value._parent = self[key]._parent
-            self[key]._parent = None
+        if hasattr(replaced, "_parent"):
+            value._parent = replaced._parent
+            replaced._parent = None
 
-        super(SmartList, self).__setitem__(key, value)
+        # The position may have shifted if the new object came from this list.
+        super(SmartList, self).__setitem__(self.index(replaced), value)
 
     def __contains__(self, key):
         for obj in self:
